@@ -592,4 +592,45 @@ def confirm_case(wd, module, cfg, cmd_fn, write_cases, cases, ci, env=None, post
     return None
 
 
+def concurrent_pass(ck, wd, module, cfg, cmd_fn, write_cases, cases, what, threads=8, env=None, post=None, max_cases=2500, min_chunk=200):
+    """The same calls made by `threads` plain threads at the same time (driver partition mode, VERIF_THREADS): the trace is
+    validated like any other; a rejection is reported only if a second concurrent run of the same cases is rejected again.
+    Returns True if a violation was recorded."""
+    step = max(1, len(cases) // max_cases)
+    sub = cases[::step]
+    c2 = os.path.join(wd, 'conc_cases.txt')
+    write_cases(c2, sub)
+    rounds = []
+    for attempt in range(1, 7):
+        t2 = os.path.join(wd, 'conc_%d.ndjson' % attempt)
+        if os.path.exists(t2):
+            os.remove(t2)
+        r = sh(cmd_fn(c2, t2), timeout=1800, env={'VERIF_THREADS': str(threads)})
+        if not os.path.exists(t2):
+            ck.note('infrastructure: concurrent pass produced no trace (rc=%s)' % r.returncode)
+            return False
+        if post:
+            post(t2)
+        v = validate_trace(wd, module, cfg, t2, env=env, min_chunk=min_chunk)
+        if attempt == 1:
+            ck.add_validation(v, '%s: the same calls from %d concurrent plain threads (%d cases)' % (what, threads, len(sub)))
+            for msg in v['infra']:
+                ck.note('infrastructure: ' + msg)
+            if not v['rejected'] and r.returncode == 0:
+                return False
+        if v['rejected'] or r.returncode != 0:
+            rounds.append(v)
+        if len(rounds) >= 2:
+            break
+    # a schedule-dependent failure need not show in every run: it is reported when two concurrent runs (of at most six) are rejected
+    if len(rounds) < 2 or not rounds[1]['rejected']:
+        ck.note('concurrent pass: rejection(s) in one concurrent run not seen again in five further runs; not reported')
+        return False
+    idx, rec = rounds[1]['rejected'][0]
+    ck.violation('%s: wrong result when %d plain threads make the calls at the same time (single-threaded runs of the same calls are accepted)' % (what, threads),
+                 '%d and %d records rejected in two concurrent runs; e.g. %s' % (len(rounds[0]['rejected']), len(rounds[1]['rejected']), json.dumps(compact(rec))[:300]),
+                 dict(cases=[list(c) if isinstance(c, (list, tuple)) else c for c in sub[:200]], concurrent=threads))
+    return True
+
+
 HIST = ' (history-dependent: correct in a fresh process, wrong after the preceding calls of the same process)'
